@@ -132,6 +132,15 @@ CLAIMED['C13'] = dict(
          'E-mail/URL/hashtag/mention/phone clauses are not covered (patterns with nested look-arounds are outside the translator). ' + NOTE_COMMON,
     design='§5/C13')
 
+CLAIMED['C20'] = dict(
+    technique='z3 regular-expression disjointness of the two polarity patterns; solver-driven exhaustive exploration (symx) of alternatives x case x context through the real model',
+    text='The true/false patterns as actually used (after remove_unicode_matches) are translated to z3 regexes; the solver proves that no string has both polarities. '
+         'The alternatives are enumerated from the real pattern source, confirmed members by z3, and each goes through the real BooleanModel in 4 letter cases and 8 contexts; '
+         'neutral token sequences must yield nothing; true/false pairs must yield one entity with its own polarity; the reported score must lie in [0,1].',
+    note='Exhaustive over the stated finite context/case grammar rather than symbolic strings. Known finding F11 (thumbs-up as a single code point is not recognised) is '
+         'reported through its API witness. ' + NOTE_COMMON,
+    design='§5/C20')
+
 NOT_APPLICABLE = {
     'C18': 'ground equality of ~50 concrete generated files against concrete YAML: no quantified variable for a solver to range over; '
            'deciding it is executing the generator (whose dependency ruamel.yaml is absent from every usable interpreter)',
